@@ -1291,7 +1291,9 @@ def gen_lqibe(rng, n, tier):
     for sval in (R, R + 5, (1 << 256) - 1, 0, 1, 1 << 255, (1 << 255) + 5, 2 * R + 3, R - 1) + tuple(degenerate):
         L.append("lq_msk %s" % sval.to_bytes(32, "little").hex()); msks.append(nM); nM += 1
     ids = []
-    for h in [bytes(rng.getrandbits(8) for _ in range(48)) for _ in range(max(2, n // 3))] + [b"\x00" * 48, b"\xff" * 48]:
+    # identity 0 is a hash that starts a run of 32 increments before the first curve point (the longest run we know; bounded or
+    # short-circuited try-and-increment loops derive a different identity point), identity 1 is random
+    for h in [(6673924663).to_bytes(48, "big")] + [bytes(rng.getrandbits(8) for _ in range(48)) for _ in range(max(2, n // 3))] + [(682279).to_bytes(48, "big"), b"\x00" * 48, b"\xff" * 48]:
         L.append("lq_id %s" % h.hex()); ids.append(len(ids))
     nS = 0; nC = 0
     for m in msks:
